@@ -133,11 +133,23 @@ func runDepthSearch(p *position.Position, depth int, timeout time.Duration) (*se
 	select {
 	case <-done:
 	case <-time.After(timeout):
-		return nil, d, false
+		// a depth-limited search has no time bound; on a loaded machine it may simply be slow. It must
+		// end when told to stop: only then is it safe to go on (the configuration is global). A search
+		// that was slow and then stopped is reported as (nil, d, true): the caller skips the case.
+		go s.StopSearch()
+		select {
+		case <-done:
+			slowSearchesStopped++
+			return nil, d, true
+		case <-time.After(30 * time.Second):
+			return nil, d, false
+		}
 	}
 	r := s.LastSearchResult()
 	return &r, d, true
 }
+
+var slowSearchesStopped int
 
 // reference minimax (shares nothing with alphabeta.go): the engine's own generator,
 // evaluator and draw test; quiescence off.
